@@ -187,7 +187,7 @@ def main(argv):
                 elif h['status'] == 'failure':
                     ob = {'id': f'KANI::{h["name"]}::{h.get("failed_check", "")}'[:300], 'message': h.get('failed_desc', 'kani FAILURE'),
                           'rendered': h.get('log_tail', ''), 'fn': h.get('target'), 'kind': 'refuted', 'clause': h.get('failed_check', ''),
-                          'site': '', 'counterexample': h.get('counterexample')}
+                          'site': '', 'counterexample': h.get('counterexample'), 'replayed': h.get('replayed')}
                     k = next((k for k in known if k.get('status') == 'finding' and ob['id'].startswith(k['obligation'])), None)
                     if k:
                         known_hits.append((k, ob))
